@@ -319,6 +319,7 @@ func c12Prop(c *Ctx) {
 		}
 	}
 	c04KnownStartNewline(c)
+	c12ExtrasKnown(c)
 	// the recorded finding: a generic type alias (the generated TypeSpec case assigns the position
 	// of '=' before it restores the type parameters)
 	{
@@ -328,6 +329,52 @@ func c12Prop(c *Ctx) {
 			c.Res.fail(key, what, in)
 		}
 	}
+}
+
+// the recorded finding: with Extras the declaring node synthesised for a range clause gets positions
+// after the end of the registered file
+func c12ExtrasKnown(c *Ctx) {
+	src := "package a\n\nfunc F(xs []int) {\n\tfor a := range xs {\n\t\t_ = a\n\t}\n}\n"
+	fset := token.NewFileSet()
+	f, err := decorator.NewDecorator(fset).Parse(src)
+	if err != nil {
+		return
+	}
+	r := decorator.NewRestorer()
+	r.Extras = true
+	rfset := token.NewFileSet()
+	r.Fset = rfset
+	af, err := r.RestoreFile(f)
+	if err != nil {
+		return
+	}
+	tf := rfset.File(af.Package)
+	c.Res.Evaluations++
+	reported := false
+	ast.Inspect(af, func(n ast.Node) bool {
+		if id, ok := n.(*ast.Ident); ok && id.Obj != nil {
+			if as, ok := id.Obj.Decl.(*ast.AssignStmt); ok {
+				out := token.NoPos
+				ast.Inspect(as, func(m ast.Node) bool {
+					if u, ok := m.(*ast.UnaryExpr); ok && int(u.OpPos) > tf.Base()+tf.Size() {
+						out = u.OpPos
+					}
+					return true
+				})
+				if int(as.TokPos) > tf.Base()+tf.Size() {
+					out = as.TokPos
+				}
+				if out.IsValid() {
+					if !reported {
+						reported = true
+						c.Res.fail("extras-synthesised-decl-outside-file", fmt.Sprintf("Obj.Decl of %s (the synthesised range assignment): position %d lies outside the restored file [%d,%d]", id.Name, out, tf.Base(), tf.Base()+tf.Size()), map[string]string{"src": src, "calls": "Restorer{Extras: true}.RestoreFile"})
+					}
+					return false
+				}
+			}
+		}
+		return true
+	})
 }
 
 const c12GenericAlias = "package a\n\ntype A[P any] = B[P]\n\ntype B[P any] struct{ x P }\n"
